@@ -437,6 +437,13 @@ package common
 //@     invariant len(out) == act_count(indicesBounded, epoch, rangeindex + 1) && len(out) <= rangeindex + 1
 //@     invariant forall i :: {indicesBounded[i]} 0 <= i && i <= rangeindex && is_active(indicesBounded[i], epoch) ==> act_count(indicesBounded, epoch, i) < len(out) && out[act_count(indicesBounded, epoch, i)] == indicesBounded[i].Index
 
+// is_active_validator on the flat snapshot
+//@ func (v *FlatValidator) IsActive(epoch) r
+//@   property C02
+//@   opt noalloc
+//@   requires v != nil
+//@   ensures r == (v.ActivationEpoch <= epoch && epoch < v.ExitEpoch)
+
 // ---------------------------------------------------------------- epochs context: what each (re)load reads from the state (C08)
 // LoadBoundedIndices: entry i is (i, activation epoch, exit epoch) of validator i, for the whole registry.
 //@ func LoadBoundedIndices(validators) (out, err)
